@@ -74,7 +74,7 @@ impl Property for C13 {
         .boxed()
     }
     fn quota(tier: Tier) -> u64 {
-        tier.pick(200_000, 4_000_000)
+        tier.pick(2_000_000, 40_000_000)
     }
     fn rule() -> String {
         "Four sub-domains. IntAlgebra: chains of 1-6 AffineTransform<i64> (entries in +-8 / +-64, incl. unimodular ones) on lattice \
@@ -277,21 +277,27 @@ impl Property for C13 {
                     Some(f) => {
                         obs.expect(oc.len() == cs.len(), &format!("affine-trait:{tn}|form{k}|shape-changed"), || format!("g={}", wkt(g)));
                         let amp = 1.0 + p2.abs() + (s1.to_radians().tan()).abs() + (s2.clamp(-80.0, 80.0).to_radians().tan()).abs() + s1.abs() / 16.0;
-                        // Triangle::new re-orders its vertices counter-clockwise, so an orientation-reversing map
-                        // permutes them: compare the vertex sets there
-                        let (mut cs2, mut oc2) = (cs.clone(), oc.clone());
-                        if matches!(gg, Geometry::Triangle(_)) {
-                            let mut ws: Vec<(Coord<f64>, Coord<f64>)> = cs.iter().map(|a| (f(*a), *a)).collect();
-                            ws.sort_by(|p, q| (p.0.x, p.0.y).partial_cmp(&(q.0.x, q.0.y)).unwrap());
-                            cs2 = ws.iter().map(|w| w.1).collect();
-                            oc2.sort_by(|p, q| (p.x, p.y).partial_cmp(&(q.x, q.y)).unwrap());
-                        }
-                        for (i, (a, b)) in cs2.iter().zip(oc2.iter()).enumerate() {
-                            let w = f(*a);
-                            let tol = 1e-9 * amp * (1.0 + a.x.abs() + a.y.abs() + origin.0.abs() + origin.1.abs() + p1.abs().min(1e3) + p2.abs());
-                            obs.expect((w.x - b.x).abs() <= tol && (w.y - b.y).abs() <= tol, &format!("affine-trait:{tn}|form{k}|coordinate"), || {
-                                format!("coord {i}: {:?} -> {:?}, expected {:?} (tol {tol}); g={} p1={p1} p2={p2} s1={s1} origin={:?}", a, b, w, wkt(g), origin)
+                        let tol_of = |a: &Coord<f64>| 1e-9 * amp * (1.0 + a.x.abs() + a.y.abs() + origin.0.abs() + origin.1.abs() + p1.abs().min(1e3) + p2.abs());
+                        if matches!(gg, Geometry::Triangle(_)) && cs.len() == 3 && oc.len() == 3 {
+                            // Triangle::new re-orders its vertices counter-clockwise, so an orientation-reversing map
+                            // permutes them: the output must equal the mapped vertices under SOME permutation
+                            let want: Vec<Coord<f64>> = cs.iter().map(|a| f(*a)).collect();
+                            let perms = [[0, 1, 2], [0, 2, 1], [1, 0, 2], [1, 2, 0], [2, 0, 1], [2, 1, 0]];
+                            let ok = perms.iter().any(|pm| (0..3).all(|i| {
+                                let t = tol_of(&cs[i]);
+                                (want[i].x - oc[pm[i]].x).abs() <= t && (want[i].y - oc[pm[i]].y).abs() <= t
+                            }));
+                            obs.expect(ok, &format!("affine-trait:{tn}|form{k}|coordinate"), || {
+                                format!("vertices {:?} -> {:?}, expected (in some order) {:?}; g={} p1={p1} p2={p2} s1={s1} origin={:?}", cs, oc, want, wkt(g), origin)
                             });
+                        } else {
+                            for (i, (a, b)) in cs.iter().zip(oc.iter()).enumerate() {
+                                let w = f(*a);
+                                let tol = tol_of(a);
+                                obs.expect((w.x - b.x).abs() <= tol && (w.y - b.y).abs() <= tol, &format!("affine-trait:{tn}|form{k}|coordinate"), || {
+                                    format!("coord {i}: {:?} -> {:?}, expected {:?} (tol {tol}); g={} p1={p1} p2={p2} s1={s1} origin={:?}", a, b, w, wkt(g), origin)
+                                });
+                            }
                         }
                     }
                 }
